@@ -180,6 +180,7 @@ type bpipe struct {
 	nwrit   int
 	writes  int
 	onWrite func(p []byte) // called under mu at each Write (linearization point of "bytes left the writer")
+	afterWrite func(p []byte) // called after the Write completed, without the lock (used to stretch the gap between two writes)
 	failAt  int            // 1-based index of the Write call that fails (0 = never)
 	cut     int            // reader is cut after this many bytes (-1 = never)
 	cutErr  error          // error to report at the cut (nil = io.EOF)
@@ -192,6 +193,14 @@ func newBpipe() *bpipe {
 }
 
 func (p *bpipe) Write(b []byte) (int, error) {
+	n, err := p.write(b)
+	if err == nil && p.afterWrite != nil {
+		p.afterWrite(b)
+	}
+	return n, err
+}
+
+func (p *bpipe) write(b []byte) (int, error) {
 	p.mu.Lock()
 	defer p.mu.Unlock()
 	p.writes++
